@@ -137,9 +137,15 @@ func (s RefSpec) Dst(n plumbing.ReferenceName) plumbing.ReferenceName {
 // Reverse returns the RefSpec with source and destination swapped.
 func (s RefSpec) Reverse() RefSpec {
 	spec := string(s)
+	force := ""
+	if spec != "" && s.IsForceUpdate() {
+		// the force marker belongs to the refspec, not to its source
+		force = refSpecForce
+		spec = spec[1:]
+	}
 	before, after, _ := strings.Cut(spec, refSpecSeparator)
 
-	return RefSpec(after + refSpecSeparator + before)
+	return RefSpec(force + after + refSpecSeparator + before)
 }
 
 func (s RefSpec) String() string {
